@@ -263,7 +263,7 @@ def g_signal(rng, cmd=None, descs=None, pf=None, canonical=False):
     if descs is None:
         descs = [g_seg(rng) if rng.random() < 0.75 else g_foreign(rng) for _ in range(rng.choice([0, 1, 1, 2, 3]))]
     if pf is None:
-        pf = rng.choice([0, 0, 0, 1, 2, 5, 20, rng.randrange(21)])
+        pf = rng.choice([0, 0, 0, 1, 2, 5, 20, rng.randrange(21), rng.randrange(255), 183, 254])   # any pointer_field below 255
     ptr = bytes([0xFF] * pf) if rng.random() < 0.7 else g_bytes(rng, pf)
     has_time = cmd[0] == 1 or (cmd[0] == 2 and cmd[2] and cmd[2][0][1][0] == 1)
     adj = g_pts(rng) if (has_time or rng.random() < 0.3) else 0
@@ -276,7 +276,9 @@ def g_signal(rng, cmd=None, descs=None, pf=None, canonical=False):
         descs = [d for d in descs if d[0] == 1] + [d for d in descs if d[0] == 0]
     if api:   # expressible through the creation + setter API: no foreign descriptors, fixed-part fields at their defaults
         descs = [d for d in descs if d[0] == 0]
-    s = [ptr, 0xFC, 0, 0, sap, 0 if api else rng.choice([0, 0, 1, 255]), 0, 0 if api else rng.choice([0, 0, 1, 63, rng.randrange(64)]), adj,
+    ssi = 0 if api else int(rng.random() < 0.25)     # section_syntax_indicator / private_indicator: kept by decoder and encoder
+    priv = 0 if api else int(rng.random() < 0.25)
+    s = [ptr, 0xFC, ssi, priv, sap, 0 if api else rng.choice([0, 0, 1, 255]), 0, 0 if api else rng.choice([0, 0, 1, 63, rng.randrange(64)]), adj,
          0 if api else rng.choice([0, 255, rng.randrange(256)]), tier, legacy, cmd, descs, stuff, rng.randrange(1 << 32)]
     return s
 
